@@ -160,6 +160,8 @@ func init() {
 	V("vrtDeepEqual", func(fr *frame, a []value) value {
 		return mkScalar(fr.i.deepEqTerm(a[0], a[1], 0), types.Bool)
 	})
+	V("vrtLock", func(fr *frame, a []value) value { return nil })
+	V("vrtUnlock", func(fr *frame, a []value) value { return nil })
 	V("vrtYield", func(fr *frame, a []value) value { fr.i.sched().yield(nil); return nil })
 	V("vrtSetPreemptions", func(fr *frame, a []value) value {
 		fr.i.sched().maxPreempt = int(asInt64(a[0]))
